@@ -185,17 +185,26 @@ ALT_RUSTFLAGS = '-C debug-assertions=off -C overflow-checks=on'
 ALT_ENV = {'VEKSCAN_CHANNEL': 'stable'}
 
 
+ALL_OPTIONAL = ['std', 'libm', 'mint', 'az', 'bytemuck', 'serde', 'image']
+
+
 class ConfigPass:
+    """three local-mode compilations of vek beside the analysis: [0] as analysed; [1] `--cfg stable`, no debug assertions, `libm` in place of
+    `std` (no_std build); [2] as analysed plus every optional cargo feature (repr_simd / platform_intrinsics need a nightly this image lacks)"""
     def __init__(self, features=None):
         import threading
         features = list(features or CONFIG_FEATURES); self.features = features
-        self.res = [None, None]; self.err = [None, None]
+        self.res = [None, None, None]; self.err = [None, None, None]
+        alt1 = [('libm' if f == 'std' else f) for f in features]
+        alt2 = sorted(set(features) | set(ALL_OPTIONAL))
+        plans = [(features, {}), (alt1, {'extra_rustflags': ALT_RUSTFLAGS, 'extra_env': ALT_ENV}), (alt2, {})]
+        self.what = ['analysed configuration', 'release build, stable-channel cfg, libm instead of std (features: %s)' % ' '.join(alt1), 'build with every optional cargo feature (%s)' % ' '.join(alt2)]
         def work(i):
             try:
-                self.res[i] = scan([], features, local=True, reset=False, **({} if i == 0 else {'extra_rustflags': ALT_RUSTFLAGS, 'extra_env': ALT_ENV}))
+                self.res[i] = scan([], plans[i][0], local=True, reset=False, **plans[i][1])
             except Exception as e:  # reported by the caller (fail closed)
                 self.err[i] = repr(e)
-        self.threads = [threading.Thread(target=work, args=(i,), daemon=True) for i in (0, 1)]
+        self.threads = [threading.Thread(target=work, args=(i,), daemon=True) for i in range(3)]
         for t in self.threads: t.start()
 
     def join(self):
